@@ -14,12 +14,16 @@ def Fits : List Req → List (List R) → Prop
   | p :: ps, b :: bs => p.size? = some b.length ∧ Fits ps bs
   | _, _ => False
 
+/-- the `for i_property` loop of a covering feature -/
+def Hit.paintAll (hit : Hit R) (ctx : Ctx R) (q : Query R) (pes : List (Req × Nat)) (out : List R) : QM G (List R) :=
+  pes.foldlM (fun out (pe : Req × Nat) => hit.paintAt ctx q pe.1 pe.2 out) out
+
 /-- the block-wise `for i_property` loop -/
-def paintBlocks (tag : Nat) (ms : Models R) (ctx : Ctx R) (q : Query R) (fMin fMax rel : R) :
+def paintBlocks (hit : Hit R) (ctx : Ctx R) (q : Query R) :
     List Req → List (List R) → QM G (List (List R))
   | p :: ps, b :: bs => do
-    let b' ← paintAt tag ms ctx q fMin fMax rel p 0 b
-    let bs' ← paintBlocks tag ms ctx q fMin fMax rel ps bs
+    let b' ← hit.paintAt ctx q p 0 b
+    let bs' ← paintBlocks hit ctx q ps bs
     pure (b' :: bs')
   | _, _ => pure []
 
@@ -30,9 +34,9 @@ def embedBlocks (pre : List R) : Except Err (List (List R) × G) → Except Err 
 theorem Req.size_of_size? {p : Req} {n : Nat} (h : p.size? = some n) : p.size = n := by
   simp [Req.size, h]
 
-theorem paintBlocks_fits (tag : Nat) (ms : Models R) (ctx : Ctx R) (q : Query R) (fMin fMax rel : R)
+theorem paintBlocks_fits (hit : Hit R) (ctx : Ctx R) (q : Query R)
     (ps : List Req) (bs : List (List R)) (hf : Fits ps bs) :
-    Post (G := G) (paintBlocks tag ms ctx q fMin fMax rel ps bs) (fun bs' => Fits ps bs') := by
+    Post (G := G) (paintBlocks hit ctx q ps bs) (fun bs' => Fits ps bs') := by
   induction ps generalizing bs with
   | nil => cases bs <;> simp [Fits] at hf; exact Post.pure (by simp [Fits])
   | cons p ps ih =>
@@ -41,30 +45,30 @@ theorem paintBlocks_fits (tag : Nat) (ms : Models R) (ctx : Ctx R) (q : Query R)
     | cons b bs =>
       obtain ⟨h1, h2⟩ := hf
       unfold paintBlocks
-      refine Post.bind (paintAt_length tag ms ctx q fMin fMax rel p b h1) fun b' hb' => ?_
+      refine Post.bind (Hit.paintAt_length hit ctx q p b h1) fun b' hb' => ?_
       refine Post.bind (ih bs h2) fun bs' hbs' => Post.pure ?_
       exact ⟨by rw [hb']; exact h1, hbs'⟩
 
 /-- the whole property loop of a feature acts block by block -/
-theorem paintAll_blocks (tag : Nat) (ms : Models R) (ctx : Ctx R) (q : Query R) (fMin fMax rel : R)
+theorem paintAll_blocks (hit : Hit R) (ctx : Ctx R) (q : Query R)
     (ps : List Req) (bs : List (List R)) (hf : Fits ps bs) (pre : List R) (g : G) :
-    paintAll tag ms ctx q fMin fMax rel (ps.zip (entriesFrom pre.length ps)) (pre ++ bs.flatten) g
-      = embedBlocks pre (paintBlocks tag ms ctx q fMin fMax rel ps bs g) := by
+    hit.paintAll ctx q (ps.zip (entriesFrom pre.length ps)) (pre ++ bs.flatten) g
+      = embedBlocks pre (paintBlocks hit ctx q ps bs g) := by
   induction ps generalizing bs pre g with
   | nil =>
     cases bs with
-    | nil => simp [paintAll, paintBlocks, embedBlocks, QM.pure_apply]
+    | nil => simp [Hit.paintAll, paintBlocks, embedBlocks, QM.pure_apply]
     | cons b bs => simp [Fits] at hf
   | cons p ps ih =>
     cases bs with
     | nil => simp [Fits] at hf
     | cons b bs =>
       obtain ⟨h1, h2⟩ := hf
-      have hlen := paintAt_length (G := G) tag ms ctx q fMin fMax rel p b h1
-      simp only [paintAll, entriesFrom, List.zip_cons_cons, List.foldlM_cons, List.flatten_cons, QM.bind_apply]
-      rw [← List.append_assoc, paintAt_shift tag ms ctx q fMin fMax rel p pre b bs.flatten g h1]
+      have hlen := Hit.paintAt_length (G := G) hit ctx q p b h1
+      simp only [Hit.paintAll, entriesFrom, List.zip_cons_cons, List.foldlM_cons, List.flatten_cons, QM.bind_apply]
+      rw [← List.append_assoc, Hit.paintAt_shift hit ctx q p pre b bs.flatten g h1]
       simp only [paintBlocks, QM.bind_apply]
-      cases hb : paintAt tag ms ctx q fMin fMax rel p 0 b g with
+      cases hb : hit.paintAt ctx q p 0 b g with
       | error e => simp [embed, embedBlocks]
       | ok r =>
         obtain ⟨b', g1⟩ := r
@@ -74,10 +78,10 @@ theorem paintAll_blocks (tag : Nat) (ms : Models R) (ctx : Ctx R) (q : Query R) 
           rw [List.length_append, hb', Req.size_of_size? h1]
         have := ih bs h2 (pre ++ b') g1
         rw [hpre] at this
-        unfold paintAll at this
+        unfold Hit.paintAll at this
         rw [List.append_assoc] at this ⊢
         rw [this]
-        cases paintBlocks tag ms ctx q fMin fMax rel ps bs g1 with
+        cases paintBlocks hit ctx q ps bs g1 with
         | error e => simp [embedBlocks]
         | ok r2 =>
           obtain ⟨bs', g2⟩ := r2
@@ -138,48 +142,90 @@ theorem Fits.nth_exists {ps : List Req} {bs : List (List R)} (h : Fits ps bs) (i
 def Feature.tag : Feature R → Nat
   | .area a => a.tag
   | .plume p => p.tag
+  | .line l => l.tag
 
-def Feature.models : Feature R → Models R
-  | .area a => a.models
-  | .plume p => p.models
-
-/-- the guards a feature evaluates before it writes; `some (fMin, fMax, rel)` = "covers the query point"
-(with the numbers handed to its models), `none` = "does not cover". -/
-def Feature.cover (f : Feature R) (ctx : Ctx R) (q : Query R) : Except Err (Option (R × R × R)) :=
+/-- the guards a feature evaluates before it writes; `some hit` = "covers the query point" (with what it needs to
+paint), `none` = "does not cover". -/
+def Feature.cover (f : Feature R) (ctx : Ctx R) (q : Query R) : Except Err (Option (Hit R)) :=
   match f with
-  | .area a => (a.covers ctx q).map (fun o => o.map (fun (m : R × R) => (m.1, m.2, (0 : R))))
-  | .plume p => (p.covers ctx q).map (fun o => o.map (fun rel => (p.minDepth, p.maxDepth, rel)))
+  | .area a => (a.covers ctx q).map (fun o => o.map (fun (m : R × R) => Hit.areaLike a.tag a.models m.1 m.2 (0 : R)))
+  | .plume p => (p.covers ctx q).map (fun o => o.map (fun rel => Hit.areaLike p.tag p.models p.minDepth p.maxDepth rel))
+  | .line l => (l.covers ctx q).map (fun o => o.map (fun h => Hit.line l h))
+
+theorem Feature.cover_tag (f : Feature R) (ctx : Ctx R) (q : Query R) (hit : Hit R) (h : f.cover ctx q = .ok (some hit)) :
+    hit.tag = f.tag := by
+  cases f with
+  | area a =>
+    simp only [Feature.cover] at h
+    cases hc : a.covers ctx q with
+    | error e => simp [hc, Except.map] at h
+    | ok o => cases o <;> simp [hc, Except.map] at h; subst h; rfl
+  | plume p =>
+    simp only [Feature.cover] at h
+    cases hc : p.covers ctx q with
+    | error e => simp [hc, Except.map] at h
+    | ok o => cases o <;> simp [hc, Except.map] at h; subst h; rfl
+  | line l =>
+    simp only [Feature.cover] at h
+    cases hc : l.covers ctx q with
+    | error e => simp [hc, Except.map] at h
+    | ok o => cases o <;> simp [hc, Except.map] at h; subst h; rfl
+
+theorem liftE_foldlM {α β : Type} (f : β → α → Except Err β) (xs : List α) (b : β) :
+    (liftE (xs.foldlM f b) : QM G β) = xs.foldlM (fun b a => (liftE (f b a) : QM G β)) b := by
+  induction xs generalizing b with
+  | nil => rfl
+  | cons x xs ih =>
+    funext g
+    rw [List.foldlM_cons, List.foldlM_cons, QM.bind_apply]
+    cases h : f b x with
+    | error e => simp [bind, Except.bind, liftE_error]
+    | ok b' =>
+      simp only [bind, Except.bind, liftE_ok]
+      rw [← ih b']
 
 theorem Feature.apply_eq (f : Feature R) (ctx : Ctx R) (q : Query R) (pes : List (Req × Nat)) (out : List R) (g : G) :
     f.apply ctx q pes out g =
       (match f.cover ctx q with
        | .error e => .error e
        | .ok none => .ok (out, g)
-       | .ok (some (a, b, r)) => paintAll f.tag f.models ctx q a b r pes out g) := by
+       | .ok (some hit) => hit.paintAll ctx q pes out g) := by
   cases f with
   | area a =>
-    simp only [Feature.apply, AreaFeature.apply, Feature.cover, Feature.tag, Feature.models, QM.bind_apply]
+    simp only [Feature.apply, AreaFeature.apply, Feature.cover, QM.bind_apply]
     cases h : a.covers ctx q with
     | error e => simp [liftE_error, Except.map]
     | ok o =>
       cases o with
       | none => simp [liftE_ok, Except.map, QM.pure_apply]
-      | some m => obtain ⟨mn, mx⟩ := m; simp [liftE_ok, Except.map]
+      | some m => obtain ⟨mn, mx⟩ := m; simp [liftE_ok, Except.map, Hit.paintAll, Hit.paintAt, paintAll]
   | plume p =>
-    simp only [Feature.apply, PlumeFeature.apply, Feature.cover, Feature.tag, Feature.models, QM.bind_apply]
+    simp only [Feature.apply, PlumeFeature.apply, Feature.cover, QM.bind_apply]
     cases h : p.covers ctx q with
     | error e => simp [liftE_error, Except.map]
     | ok o =>
       cases o with
       | none => simp [liftE_ok, Except.map, QM.pure_apply]
-      | some rel => simp [liftE_ok, Except.map]
+      | some rel => simp [liftE_ok, Except.map, Hit.paintAll, Hit.paintAt, paintAll]
+  | line l =>
+    simp only [Feature.apply, LineFeature.apply, Feature.cover]
+    cases h : l.covers ctx q with
+    | error e => simp [bind, Except.bind, liftE_error, Except.map]
+    | ok o =>
+      cases o with
+      | none => simp [bind, Except.bind, pure, Except.pure, liftE_ok, Except.map]
+      | some hh =>
+        simp only [bind, Except.bind, Except.map, Option.map]
+        have := liftE_foldlM (G := G) (fun out (pe : Req × Nat) => linePaintAt l ctx q hh pe.1 pe.2 out) pes out
+        simp only [Hit.paintAll, Hit.paintAt]
+        rw [← this]
 
 /-- a feature, block-wise -/
 def Feature.applyBlocks (f : Feature R) (ctx : Ctx R) (q : Query R) (ps : List Req) (bs : List (List R)) : QM G (List (List R)) :=
   fun g => match f.cover ctx q with
     | .error e => .error e
     | .ok none => .ok (bs, g)
-    | .ok (some (a, b, r)) => paintBlocks f.tag f.models ctx q a b r ps bs g
+    | .ok (some hit) => paintBlocks hit ctx q ps bs g
 
 theorem Feature.apply_blocks (f : Feature R) (ctx : Ctx R) (q : Query R) (ps : List Req) (bs : List (List R))
     (hf : Fits ps bs) (g : G) :
@@ -191,9 +237,8 @@ theorem Feature.apply_blocks (f : Feature R) (ctx : Ctx R) (q : Query R) (ps : L
   | ok o =>
     cases o with
     | none => simp [embedBlocks]
-    | some t =>
-      obtain ⟨a, b, r⟩ := t
-      have := paintAll_blocks (G := G) f.tag f.models ctx q a b r ps bs hf [] g
+    | some hit =>
+      have := paintAll_blocks (G := G) hit ctx q ps bs hf [] g
       simpa [entries] using this
 
 theorem Feature.applyBlocks_fits (f : Feature R) (ctx : Ctx R) (q : Query R) (ps : List Req) (bs : List (List R))
@@ -205,10 +250,9 @@ theorem Feature.applyBlocks_fits (f : Feature R) (ctx : Ctx R) (q : Query R) (ps
   | ok o =>
     cases o with
     | none => simp [hc] at h; obtain ⟨rfl, _⟩ := h; exact hf
-    | some t =>
-      obtain ⟨a, b, r⟩ := t
+    | some hit =>
       simp only [hc] at h
-      exact paintBlocks_fits f.tag f.models ctx q a b r ps bs hf g bs' g' h
+      exact paintBlocks_fits hit ctx q ps bs hf g bs' g' h
 
 /-- all features in file order, block-wise -/
 def featuresBlocks (fs : List (Feature R)) (ctx : Ctx R) (q : Query R) (ps : List Req) (bs : List (List R)) : QM G (List (List R)) :=
